@@ -375,3 +375,159 @@ def r_priv_formats(repo, tier):
     for rel in FORMAT_FILES:
         cls += list(repo.mod(rel).classes.values())
     return N.r_priv(repo, cls, floor=50)
+
+
+def r_tabwalk(repo, tier):
+    out = RuleOut(
+        "R-TABWALK",
+        "table walkers of the format parsers advance their cursor on every path: in a loop that reads a structure at a cursor "
+        "variable (the cursor is an argument of a call in the loop body) and advances it with `cursor += step`, every path "
+        "through the body that reaches the next iteration (including `continue`) passes an advance of that cursor",
+    )
+    n = 0
+    for rel in FORMAT_FILES:
+        m = repo.mod(rel)
+        for f in m.functions.values():
+            loops = [l for l in _walk_no_nested(f.node) if isinstance(l, (ast.For, ast.While))]
+            if not loops:
+                continue
+            cfg = None
+            for loop in loops:
+                # cursors: names aug-assigned (+=) directly in this loop's body (not in nested loops) and used as a call argument in the body
+                adv = {}
+                for s in loop.body:
+                    for x in ast.walk(s):
+                        if isinstance(x, ast.AugAssign) and isinstance(x.op, ast.Add) and isinstance(x.target, ast.Name):
+                            adv.setdefault(x.target.id, []).append(x)
+                if not adv:
+                    continue
+                used = set()
+                for s in loop.body:
+                    for c in ast.walk(s):
+                        if isinstance(c, ast.Call):
+                            for a in list(c.args) + [k.value for k in c.keywords]:
+                                if isinstance(a, ast.Name) and a.id in adv:
+                                    used.add(a.id)
+                        if isinstance(c, ast.Subscript) and isinstance(c.slice, ast.Slice):
+                            for a in (c.slice.lower, c.slice.upper):
+                                if a is not None:
+                                    for z in ast.walk(a):
+                                        if isinstance(z, ast.Name) and z.id in adv:
+                                            used.add(z.id)
+                for cur in sorted(used):
+                    # counters such as `count += 1` are not cursors: the step must not be the constant 1 unless the cursor indexes data
+                    if cfg is None:
+                        cfg = CFG(f.node, may_raise=lambda x: False)
+                    head = cfg.stmt_node.get(id(loop))
+                    if head is None:
+                        continue
+                    advn = {cfg.stmt_node[id(a)].id for a in adv[cur] if id(a) in cfg.stmt_node}
+                    # also re-assignments of the cursor (cursor = f(...)) count as repositioning
+                    body_ids = set()
+                    for s in loop.body:
+                        for x in ast.walk(s):
+                            if id(x) in cfg.stmt_node:
+                                body_ids.add(cfg.stmt_node[id(x)].id)
+                    for nid in body_ids:
+                        nd = cfg.nodes[nid]
+                        if nd.kind == "stmt" and isinstance(nd.ast, ast.Assign) and any(isinstance(t, ast.Name) and t.id == cur for t in nd.ast.targets):
+                            advn.add(nid)
+                    # the read sites of the cursor (call with cursor arg)
+                    n += 1
+                    # path head -t-> ... -> head avoiding advn, that passes at least one use of the cursor
+                    bad = None
+                    starts = [mm for mm, lab in cfg.succ[head.id] if lab == "t"]
+                    todo = [(st, [head, st]) for st in starts if st.id not in advn and st.id in body_ids]
+                    seen = set()
+                    while todo and bad is None:
+                        nd, path = todo.pop()
+                        for mm, lab in cfg.succ[nd.id]:
+                            if lab == "exc" or mm.id in advn:
+                                continue
+                            if mm.id == head.id:
+                                # did this path read at the cursor?
+                                reads = False
+                                for p in path:
+                                    if p.ast is not None and p.kind in ("stmt", "test"):
+                                        tgt = p.ast.test if p.kind == "test" else p.ast
+                                        for c in ast.walk(tgt):
+                                            if isinstance(c, ast.Call) and any(isinstance(a, ast.Name) and a.id == cur for a in c.args):
+                                                reads = True
+                                if reads:
+                                    bad = path + [head]
+                                    break
+                                continue
+                            if mm.id in body_ids and (mm.id, len(path)) not in seen and len(path) < 60:
+                                seen.add((mm.id, len(path)))
+                                todo.append((mm, path + [mm]))
+                    out.inst("%s::loop@%s cursor %s" % (f.key, norm(loop).split(":")[0][:50], cur), {"function": f.dqual, "loop": norm(loop).split(":")[0][:60], "cursor": cur, "advance_on_all_paths": bad is None})
+                    if bad is not None:
+                        out.report(rel, f.dqual, "cursor %s in %s" % (cur, norm(loop).split(":")[0][:60]), loop.lineno, "an iteration can read the table entry at %s and reach the next iteration without advancing %s (path %s): the same entry is read again and the following entries are lost" % (cur, cur, cfg.describe_path([(x, None) for x in bad])))
+    out.stats["walkers"] = n
+    if n < 10:
+        raise AnalysisError("R-TABWALK: only %d table-walking loops found in the format parsers" % n)
+    return out
+
+
+GEOMETRY = [
+    # (file, function, [header fields that must flow into a read position / loop bound])
+    ("amoco/system/elf.py", "Elf.__init__", ["e_phoff", "e_phnum", "e_phentsize", "e_shoff", "e_shnum", "e_shentsize", "e_shstrndx"]),
+    ("amoco/system/pe.py", "PE.__init__", ["e_lfanew", "SizeOfOptionalHeader", "NumberOfSections"]),
+]
+
+
+def r_geom(repo, tier):
+    out = RuleOut(
+        "R-GEOM",
+        "the table geometry a file declares is the geometry the parser uses: each header field giving the position, entry size "
+        "or entry count of a table (ELF e_phoff/e_phnum/e_phentsize/e_shoff/e_shnum/e_shentsize/e_shstrndx, PE e_lfanew/"
+        "SizeOfOptionalHeader/NumberOfSections) is data-flow connected, inside the constructor, to a read position, a "
+        "subscript or a loop bound (a field that is only logged or compared does not position anything)",
+    )
+    for rel, qual, fields in GEOMETRY:
+        f = repo.func(rel, qual)
+        fn = f.node
+        for fld in fields:
+            # taint propagation (flow-insensitive)
+            tainted = set()
+
+            def has(e):
+                for x in ast.walk(e):
+                    if isinstance(x, ast.Attribute) and x.attr == fld:
+                        return True
+                    if isinstance(x, ast.Name) and x.id in tainted:
+                        return True
+                return False
+
+            changed = True
+            while changed:
+                changed = False
+                for n in ast.walk(fn):
+                    if isinstance(n, ast.Assign):
+                        tg, v = n.targets[0], n.value
+                        if isinstance(tg, ast.Tuple) and isinstance(v, ast.Tuple) and len(tg.elts) == len(v.elts):
+                            pairs = list(zip(tg.elts, v.elts))
+                        else:
+                            pairs = [(tg, v)]
+                        for t, vv in pairs:
+                            if isinstance(t, ast.Name) and t.id not in tainted and has(vv):
+                                tainted.add(t.id)
+                                changed = True
+                    elif isinstance(n, ast.AugAssign) and isinstance(n.target, ast.Name) and n.target.id not in tainted and has(n.value):
+                        tainted.add(n.target.id)
+                        changed = True
+            sinks = []
+            for n in ast.walk(fn):
+                if isinstance(n, ast.Call):
+                    fnm = norm(n.func)
+                    is_ctor = isinstance(n.func, ast.Name) and n.func.id[:1].isupper()
+                    if is_ctor or fnm == "range" or fnm.endswith(".seek") or fnm.endswith(".read"):
+                        if any(has(a) for a in n.args):
+                            sinks.append(norm(n)[:60])
+                elif isinstance(n, ast.Subscript) and has(n.slice):
+                    sinks.append(norm(n)[:60])
+            out.inst("%s::%s" % (f.key, fld), {"constructor": qual, "field": fld, "flows_to": sinks[:3]})
+            present = any(isinstance(x, ast.Attribute) and x.attr == fld for x in ast.walk(fn))
+            if not sinks:
+                out.report(rel, f.dqual, "geometry field %s unused" % fld, fn.lineno, "%s %s the header field %s but it never reaches a read position, subscript or loop bound: the table is located with something else than what the file declares" % (qual, "reads" if present else "never reads", fld))
+    return out
